@@ -139,7 +139,7 @@ func searchNormalForm(p *core.Prog, c0 *core.Ctx, kf *core.KnownFindings, runAt 
 func stem(key string) string {
 	var out []string
 	for _, seg := range strings.Split(key, "/") {
-		if strings.ContainsAny(seg, "($[") {
+		if strings.ContainsAny(seg, "($[.") {
 			continue
 		}
 		// "#2" only enumerates the instances of one construct
